@@ -1082,7 +1082,8 @@ NS_BASE = [
 NS_OPTIONS = [
     ("a/A", [zrr("a", 300, RR_A("10.0.0.1"))]),
     ("b.a/A", [zrr("b.a", 300, RR_A("10.0.0.2"))]),
-    ("*.w/TXT", [zrr("*.w", 300, RR_TXT("wild"))]),
+    # (CAA = type 257: a second bitmap window, shorter than the first)
+    ("*.w/TXT+CAA", [zrr("*.w", 300, RR_TXT("wild")), zrr("*.w", 300, RR_CAA())]),
     ("sub/NS", [zrr("sub", 300, RR_NS("Ns.Sub")), zrr("sub", 300, RR_NS("x.Sub"))]),
     ("sub/DS", [zrr("sub", 300, RR_DS())]),
     ("sub/A(glue at cut)", [zrr("sub", 300, RR_A("10.0.0.9"))]),
